@@ -212,7 +212,9 @@ def _run(mod, args, timer) -> int:
         print(f"HARNESS-WARNING property={mod.PROP} {p}")
     print(f"done {mod.PROP}: runs={runs} evaluations={coverage.get('evaluations')} distinct_nontrivial={coverage.get('distinct_nontrivial')} "
           f"violations={n_viol} wall={wall:.1f}s", flush=True)
-    if exit_code == core.EXIT_OK and problems and getattr(mod, "PROBLEMS_ARE_ERRORS", False):
+    if exit_code == core.EXIT_OK and any(p.startswith("FATAL") for p in problems):
+        # the check could not evaluate the property on this tree: never report that as "held"
+        print(f"HARNESS-ERROR property={mod.PROP} the workload could not be evaluated; see warnings above")
         return core.EXIT_HARNESS
     return exit_code
 
